@@ -3,7 +3,7 @@
 1. WireTLS.tla = the observer (two automata over abstract records + the session-id echo) and a sender model of the
    two endpoints at the granularity "one conn.Write = one record".  TLC checks that the observer accepts
    everything the sender model emits under the size constants READ FROM THE CODE UNDER TEST, and that it rejects
-   what the five seeded defects emit (negative configurations: the rules are not vacuous).
+   what the six seeded defects emit (negative configurations: the rules are not vacuous).
 2. The rig (harness/server/c10_test.go): real client + real server over the in-memory network, the tap of every
    connection parsed by the independent parser harness/kit/tlsparse.go; one abstract event per record.
 3. WireTLSTrace.tla validates every recorded connection with the same observer; the Go driver judges the same
@@ -73,7 +73,7 @@ def run(ctx):
     q = ctx.quick()
     k = code_constants()
     ctx.log("constants of the code under test: %s" % k)
-    pool = concurrent.futures.ThreadPoolExecutor(max_workers=6)
+    pool = concurrent.futures.ThreadPoolExecutor(max_workers=8)
     go_f = pool.submit(lib.run_go, ctx, "server", "TestVerifC10(Rig|Parser)", None, 2400, None, False, "TestVerifC10Rig")
     mc = {
         "mc_code_constants": pool.submit(_mc, ctx, "mc_code_constants", k=k, frames=3 if q else 6),
@@ -81,6 +81,7 @@ def run(ctx):
         "neg_version_34": pool.submit(_mc, ctx, "neg_version_34", dev='{"Ver34"}', inv="ObserverAccepts", k=k, wire=16401, write=16640),
         "neg_empty_notice": pool.submit(_mc, ctx, "neg_empty_notice", dev='{"EmptyNotice"}', inv="ObserverAccepts", k=k, wire=16401, write=16640),
         "neg_empty_frame_sent": pool.submit(_mc, ctx, "neg_empty_frame_sent", dev='{"EmptyFrameSent"}', inv="ObserverAccepts", k=k, wire=16401, write=16640),
+        "neg_random_flag_from_servername": pool.submit(_mc, ctx, "neg_random_flag_from_servername", dev='{"RandomFlagFromServerName"}', inv="ObserverAccepts", k=k, wire=16401, write=16640),
         "neg_limit_16700": pool.submit(_mc, ctx, "neg_limit_16700", inv="ObserverAccepts", k=k, wire=16700, write=16700),
     }
     mcr = {n: f.result() for n, f in mc.items()}
@@ -89,7 +90,7 @@ def run(ctx):
             raise lib.Inconclusive("negative configuration %s was not rejected by the observer (got %s): the grammar would be vacuous" % (n, r.violated))
     model_ok = mcr["mc_code_constants"].ok
     if model_ok:
-        ctx.log("observer accepts the sender model under the code's constants (%d distinct states); 5 negative configurations rejected"
+        ctx.log("observer accepts the sender model under the code's constants (%d distinct states); 6 negative configurations rejected"
                 % mcr["mc_code_constants"].distinct)
     else:
         # not a verdict yet: the recorded connections decide (a model counter-example must be reproduced on the code)
@@ -179,7 +180,7 @@ def run(ctx):
         "code_constants": k,
         "level_note": LEVEL_NOTE,
         "exhaustive": False,
-        "checker_cmd": "tlc WireTLS.tla (6 configurations) / WireTLSTrace.tla (one run per trace file) + go test -run 'TestVerifC10(Rig|Parser)'",
+        "checker_cmd": "tlc WireTLS.tla (7 configurations) / WireTLSTrace.tla (one run per trace file) + go test -run 'TestVerifC10(Rig|Parser)'",
         "harness_stats": st,
     }
     ctx.notes.append(LEVEL_NOTE)
